@@ -233,3 +233,18 @@ Proof.
   destruct (plan_bound chosen (mp p) o i Hok) as [Hz|(Hin & Hle)]; [now left|right].
   split; auto.
 Qed.
+
+(** * updateFreeSpace accounts for what is already planned for the resident runners: free + predicted <= total *)
+Lemma predicted_set_free rs allg g f : predicted rs allg (set_free g f) = predicted rs allg g.
+Proof. reflexivity. Qed.
+
+Lemma update_free_accounts rs allg g' :
+  existsb rn_llama rs = true -> In g' (update_free rs allg) ->
+  (predicted rs allg g' <= x_total g' -> x_free g' + predicted rs allg g' <= x_total g') /\
+  (x_total g' < predicted rs allg g' -> x_free g' = 0).
+Proof.
+  unfold update_free. intros -> Hin. apply in_map_iff in Hin. destruct Hin as (g & <- & _).
+  rewrite predicted_set_free. unfold set_free, x_free. cbn [x_g g_free x_total]. split.
+  - apply new_free_le_room.
+  - intros H. unfold new_free. apply N.ltb_lt in H. now rewrite H.
+Qed.
